@@ -32,6 +32,31 @@ def stable_hash(obj) -> str:
     return hashlib.sha1(json.dumps(obj, sort_keys=True, default=str).encode()).hexdigest()[:16]
 
 
+class _Guarded:
+    """picklable wrapper: fn(x) under a SIGALRM watchdog (main thread of the calling process only; elsewhere plain call)"""
+
+    def __init__(self, fn, limit):
+        self.fn, self.limit = fn, limit
+
+    def __call__(self, x):
+        import signal
+        import threading
+
+        if self.limit <= 0 or threading.current_thread() is not threading.main_thread():
+            return self.fn(x)
+
+        def on_alarm(signum, frame):
+            raise TimeoutError(f"case did not finish within {self.limit:.0f} s")
+
+        old = signal.signal(signal.SIGALRM, on_alarm)
+        signal.setitimer(signal.ITIMER_REAL, self.limit)
+        try:
+            return self.fn(x)
+        finally:
+            signal.setitimer(signal.ITIMER_REAL, 0)
+            signal.signal(signal.SIGALRM, old)
+
+
 class Ctx:
     def __init__(self, pid: str, tier: str, seed: int):
         self.pid = pid
@@ -136,12 +161,20 @@ class Ctx:
 
     # ------------------------------------------------------------- parallel
     def pmap(self, fn, items, procs=16, chunksize=None):
+        """Run fn over items (in worker processes when there are many).  Every call runs under a watchdog: code under test that does not
+        return within VH_CASE_TIMEOUT seconds (default 300) gets a TimeoutError raised inside the call, which the drivers report as the
+        case's outcome - a hang becomes a verdict instead of a stuck check."""
         items = list(items)
+        fn = _Guarded(fn, float(os.environ.get("VH_CASE_TIMEOUT", "300")))
         if len(items) < 64 or procs <= 1:
             return [fn(x) for x in items]
         cs = chunksize or max(1, len(items) // (procs * 8))
-        with mp.get_context("fork").Pool(procs) as pool:
+        pool = mp.get_context("fork").Pool(procs)
+        try:
             return pool.map(fn, items, chunksize=cs)
+        finally:
+            pool.close()      # let the workers exit normally (not terminate()): tools that flush at exit (coverage) keep their data
+            pool.join()
 
     def subsample(self, cases, n):
         """Quick tier: deterministic sub-sample (VERIF_SEED) of a TLC-emitted case list."""
